@@ -65,6 +65,7 @@ def cases(seed, tier):
     rng = gen.rng_for(ID, seed)
     specs = grammar.world(rng)
     pg = gen.PlanGen(rng, specs)
+    pg.no_reuse = True  # plan_mutator processes a Msg *object* once: a host that yields the same object again is outside the statement
     host = grammar.gen_stmts(pg, n=rng.choice([2, 3, 4, 5]))
     nodes = [n for n in sites_of(host) if n["cmd"] in ("null", "set", "trigger", "sleep", "checkpoint", "wait")]
     if not nodes:
